@@ -135,9 +135,59 @@ def derived_probes(case, dom, objects, n=24):
     return out
 
 
+def boundary_probes(world, params, formulas, probes, action_name, limit=60):
+    """States placed on and just beside the boundary of every numeric comparison occurring in the formulas (source
+    and read-back): a changed coefficient flips the truth value there although both agree on generic states."""
+    leaves = []
+    for f in formulas:
+        for x in pddl.walk(f):
+            if x and isinstance(x[0], str) and x[0] in pddl.CMP_OPS and len(x) == 3 and not pddl.is_term(x[1]) and x not in leaves:
+                leaves.append(x)
+    out = []
+    for pr in [p for p in probes if p["action"] == action_name][:2]:
+        st = unjstate(pr["state"])
+        env = {p: o for (p, _), o in zip(params, pr["args"])}
+        for leaf in leaves[:10]:
+            env2 = dict(env)
+            for x in pddl.walk(leaf):
+                for tkn in x[1:]:
+                    if isinstance(tkn, str) and tkn.startswith("?") and tkn not in env2 and world.objects:
+                        env2[tkn] = sorted(world.objects)[0]          # a quantified variable: any object will do
+            keys = []
+            for x in pddl.walk(leaf):
+                if x and isinstance(x[0], str) and x[0] in world.funcs and len(x) - 1 == len(world.funcs[x[0]]):
+                    k = (x[0],) + tuple(env2.get(a, a) for a in x[1:])
+                    if k in st[1] and k not in keys:
+                        keys.append(k)
+            for k in keys[:3]:
+                def delta(v):
+                    s2 = (st[0], {**st[1], k: v})
+                    return pddl.ev(leaf[1], env2, s2) - pddl.ev(leaf[2], env2, s2)
+                try:
+                    v0 = st[1][k]
+                    d0, d1 = delta(v0), delta(v0 + 1)
+                except (pddl.Undefined, ZeroDivisionError, KeyError, TypeError, ValueError):
+                    continue
+                if d1 == d0:
+                    continue
+                root = v0 - d0 / (d1 - d0)
+                if abs(root) > 10 ** 6 or root.denominator.bit_length() > 200:
+                    continue
+                for rel in (Fraction(1, 100), Fraction(-1, 100), Fraction(1, 2), Fraction(-1, 2)):
+                    v = root + rel * max(1, abs(root))
+                    out.append({"action": action_name, "args": pr["args"], "state": jstate((st[0], {**st[1], k: v}))})
+                    if len(out) >= limit:
+                        return out
+    return out
+
+
 def behaviour_differs(world, params, src_pre, src_eff, x_pre, x_eff, probes, action_name):
     """-> None | 'pre' | 'eff' | 'undecidable'."""
     decided = 0
+    try:
+        probes = list(probes) + boundary_probes(world, params, [src_pre or [], x_pre or [], src_eff, x_eff], probes, action_name)
+    except Exception:      # read-back structures outside the reference's forms: the plain probes decide
+        probes = list(probes)
     for pr in probes:
         if pr["action"] != action_name:
             continue
@@ -631,7 +681,7 @@ def apply_ops(dom, inj):
 
 
 def gen(ch, tier):
-    ft = G.feats(max_actions=2)
+    ft = G.feats(max_actions=2, p_long_number=0.15, long_decimals=7)
     case = S.gen_sem_case(ch, tier, ft, n_probes=4)
     if ch.flag(0.35):
         tag = ch.choice(OUTSIDE)
